@@ -32,14 +32,28 @@ pub fn prop() -> Prop {
     }
 }
 
-crate::jser_struct! {
-    pub struct Op {
-        pub kind: u8,
-        pub a: u16,
-        pub b: u16,
-        pub c: u16,
-        pub s: String,
-        pub ch: Vec<u16>,
+#[derive(Clone, Debug)]
+pub struct Op {
+    pub kind: u8,
+    pub a: u16,
+    pub b: u16,
+    pub c: u16,
+    pub s: String,
+    pub ch: Vec<u16>,
+}
+impl crate::jser::Jser for Op {
+    fn to_j(&self) -> serde_json::Value {
+        serde_json::json!({"op": KIND_NAMES[(self.kind % NKINDS) as usize], "kind": self.kind.to_j(), "a": self.a.to_j(), "b": self.b.to_j(), "c": self.c.to_j(), "s": self.s, "ch": self.ch.to_j()})
+    }
+    fn from_j(j: &serde_json::Value) -> Result<Self, String> {
+        Ok(Op {
+            kind: u8::from_j(j.get("kind").ok_or("kind")?)?,
+            a: u16::from_j(j.get("a").ok_or("a")?)?,
+            b: u16::from_j(j.get("b").ok_or("b")?)?,
+            c: u16::from_j(j.get("c").ok_or("c")?)?,
+            s: String::from_j(j.get("s").ok_or("s")?)?,
+            ch: Vec::<u16>::from_j(j.get("ch").ok_or("ch")?)?,
+        })
     }
 }
 crate::jser_struct! {
